@@ -112,6 +112,10 @@ func (j *JwtAuthenticator) authenticate(ctx context.Context, bearerToken string)
 	}
 	ns := parts[2]
 	ksa := parts[3]
+	// Same rule as the Kubernetes JWT authenticator: an identity needs a namespace and a service account.
+	if ns == "" || ksa == "" {
+		return nil, fmt.Errorf("invalid sub %v", sa.Sub)
+	}
 	if !checkAudience(sa.Aud, j.audiences) {
 		return nil, fmt.Errorf("invalid audiences %v", sa.Aud)
 	}
